@@ -890,6 +890,9 @@ func (s *sink) Op(format string, a ...any) {
 }
 
 func gen(out *kit.Out, r *kit.Rand, tier string) {
+	// kit.NewRand(seed) and U64 both step the state by the same constant, so the streams of
+	// adjacent seeds are one-draw shifts of each other; Fork() re-keys from a mixed output.
+	r = r.Fork()
 	o := &sink{out: out}
 	thorough := tier == "thorough"
 
